@@ -25,12 +25,26 @@ for c, sub in subj.items():
     tab += "| `%s` | %s | %s |\n" % (c, props, what.replace("|", "\\|"))
 seedtab = "| Seed | Change (one line) | Caught by |\n|---|---|---|\n"
 n = 0
+try:
+    regress = json.load(open(os.path.join(V, "seeded", "REGRESSION.json")))["results"]
+except Exception:
+    regress = {}
 for d in sorted(glob.glob(os.path.join(V, "seeded", "*", ""))):
     nm = os.path.basename(d.rstrip("/"))
     m = json.load(open(d + "meta.json"))
     first = [l for l in open(d + "notes.md").read().splitlines() if l.strip()][0].lstrip("# ").strip()
     first = re.split(r" [-–—:] ", first, 1)[1] if re.search(r" [-–—:] ", first) else first
-    seedtab += "| %s | %s | %s |\n" % (nm, first.replace("|", "\\|"), ", ".join(m.get("caught_by") or []) or "-")
+    rg = regress.get(nm, {})
+    caught = ", ".join(m.get("caught_by") or []) or "-"
+    if rg.get("status") == "caught":
+        caught = ", ".join(rg["caught_by"])
+    elif rg.get("status") == "MISSED":
+        caught = "- (not detected at HEAD, see text)"
+    elif rg.get("status") == "patch-no-longer-applies" and caught != "-":
+        caught += " (when written; the patch predates a later fix: commit)"
+    if not m.get("confirmed"):
+        caught = "not counted (see text)"
+    seedtab += "| %s | %s | %s |\n" % (nm, first.replace("|", "\\|"), caught)
     n += 1
 
 
